@@ -2,6 +2,7 @@
 open Util
 open Base
 open Derive
+open DeriveExt
 
 let find_struct (id : string) : structspec option =
   let want = L.map n_of_int (codepoints_of_utf8 id) in
@@ -55,8 +56,8 @@ let dres_s (ok : 'a -> string) (r : 'a dres) : string =
    equality of what the two values print to *)
 let rt_s (st : structspec) un v r =
   dres_s (fun v' ->
-      let eq = if st.s_eq then sval_eqb v v'
-        else (match x_to_lossy st.s_fields v, x_to_lossy st.s_fields v' with
+      let eq = if st.s_eq then yval_eqb v v'
+        else (match y_to_lossy st.s_fields v, y_to_lossy st.s_fields v' with
             | Some a, Some b -> items_s un a = items_s un b
             | _, _ -> false) in
       if eq then "1" else "0") r
@@ -71,28 +72,34 @@ let derive (fs : string list) : string =
     let prior = L.nth fs 2 in
     let tbl = parse_table (L.nth fs 3) in
     let un = parse_keys (L.nth fs 4) in
-    (* every text an external deserialiser will be asked about must be in the case's table *)
+    (* every text one of the three table-driven deserialisers (2 Url, 14 Vec<Url>, 15 NaiveDate) will be
+       asked about must be in the case's table; the other codecs are computed by their models *)
     let incomplete = L.exists (fun f -> match f.f_de with
-        | DExt i -> (match Lossy.l_get src f.f_key with
+        | DExt i when L.mem (int_of_n i) [2; 14; 15] -> (match Lossy.l_get src f.f_key with
             | Some s -> not (L.exists (fun ((j, x), _) -> j = i && x = s) tbl)
             | None -> false)
         | _ -> false) fields in
     if incomplete then "EXT-TABLE-INCOMPLETE" else
-    let from_l = x_from_lossy tbl fields src in
-    let from_ll = if st.s_from then dres_s (fun _ -> "OK") (x_from_ll tbl sk rk fields (ll_of_list src)) else "-" in
+    let from_l = y_from_lossy tbl fields src in
+    let from_ll = if st.s_from then dres_s (fun _ -> "OK") (y_from_ll tbl sk rk fields (ll_of_list src)) else "-" in
     let head = Printf.sprintf "from=%s|fromll=%s" (dres_s (fun _ -> "OK") from_l) from_ll in
     match from_l with
     | DErr _ -> head
-    | DOk v ->
+    | DOk v0 ->
+      (* case field 5: keys of list fields whose value is replaced by the empty list *)
+      let clr = if L.length fs > 5 then parse_keys (L.nth fs 5) else [] in
+      let known k = L.exists (fun f -> hx f.f_key = k) fields in
+      if not (L.for_all known clr) then head ^ "|clr=UNSUPPORTED" else
+      let v = L.map2 (fun f x -> if L.mem (hx f.f_key) clr then Some (VList []) else x) fields v0 in
       if not st.s_to then head ^ "|to=UNSUPPORTED" else
-      let to_l = x_to_lossy fields v and to_ll = x_to_ll sk rk fields v in
+      let to_l = y_to_lossy fields v and to_ll = y_to_ll sk rk fields v in
       (match to_l, to_ll with
        | Some pl, Some pt ->
          let part_to = Printf.sprintf "to=%s|totext=%s|toll=%s|tolltext=%s"
              (items_s un pl) (text_s un pl (Lossy.print_para pl))
              (items_s un (ll_items pt)) (text_s un pl (texts pt)) in
          let part_rt = if st.s_from then
-             Printf.sprintf "|rt=%s|rtll=%s" (rt_s st un v (x_from_lossy tbl fields pl)) (rt_s st un v (x_from_ll tbl sk rk fields pt))
+             Printf.sprintf "|rt=%s|rtll=%s" (rt_s st un v (y_from_lossy tbl fields pl)) (rt_s st un v (y_from_ll tbl sk rk fields pt))
            else "" in
          let part_upd =
            if prior = "-" then "" else begin
@@ -100,10 +107,10 @@ let derive (fs : string list) : string =
              let lossy_part =
                match Lossy.lossy_paragraph_from_str ptext with
                | Ok p0 ->
-                 (match x_update_lossy fields v p0 with
+                 (match y_update_lossy fields v p0 with
                   | Some p1 ->
                     Printf.sprintf "|prior=%s|upd=%s|updtext=%s%s" (items_s un p0) (items_s un p1) (text_s un pl (Lossy.print_para p1))
-                      (if st.s_from then "|updrt=" ^ rt_s st un v (x_from_lossy tbl fields p1) else "")
+                      (if st.s_from then "|updrt=" ^ rt_s st un v (y_from_lossy tbl fields p1) else "")
                   | None -> "|upd=ILLTYPED")
                | Err _ -> "|prior=ERR"
                | Panic _ -> "|prior=PANIC"
@@ -112,11 +119,11 @@ let derive (fs : string list) : string =
                match Deb822Parse.paragraph_from_str ptext with
                | Ok p0node ->
                  let p0 = children p0node in
-                 (match x_update_ll sk rk fields v p0 with
+                 (match y_update_ll sk rk fields v p0 with
                   | Some p1 ->
                     Printf.sprintf "|priorll=%s|priorlltext=%s|updll=%s|updlltext=%s%s" (items_s un (ll_items p0)) (hx (texts p0))
                       (items_s un (ll_items p1)) (text_s un pl (texts p1))
-                      (if st.s_from then "|updllrt=" ^ rt_s st un v (x_from_ll tbl sk rk fields p1) else "")
+                      (if st.s_from then "|updllrt=" ^ rt_s st un v (y_from_ll tbl sk rk fields p1) else "")
                   | None -> "|updll=ILLTYPED")
                | Err _ -> "|priorll=ERR"
                | Panic _ -> "|priorll=PANIC"
